@@ -22,6 +22,9 @@ C11_NoLoss == Adapter => \A j \in H.accepted : j \in Range(S.q[1]) \/ (\E u \in 
 \* recovery: at the end (no step possible) everything accepted has been processed completely, unless an acknowledgement was refused
 C11_Recovery == (Adapter /\ ~ENABLED Next /\ S.ws = "running" /\ ~(\E f \in Faults : f[1] = "ack")) => \A j \in H.accepted : j \in S.acked \/ j \in H.purged
 C02_Bound == Cardinality(Inflight) <= H.concMax
+\* once TunePool(n) has returned and the jobs that were Processing then have finished, at most n jobs are in flight
+\* (until the next TunePool begins to return: only one controller tunes in the configurations)
+C02_TuneBound == (H.tb.n > 0 /\ S.conc = H.tb.n /\ \A j \in H.tb.old : S.jst[j] # "processing") => Cardinality({j \in Jobs : S.jst[j] = "processing"}) <= H.tb.n
 C09_PauseBound == H.epoch = "pause" => H.pauseStarts <= H.concMax
 C17_Bounds == S.cur >= 0 /\ S.cur <= H.concMax /\ S.mcomp <= S.msucc + S.mfail
 C18_PoolBound == Cardinality({g \in PGs : S.pc[g] \notin {"unborn", "dead"}}) <= H.concMax + 1
